@@ -249,7 +249,40 @@ def exec_io(case):
                     return super().write_image(pos, image, **k)
 
             pio = NestingIO(d, default_format=fmt)
-        img = Image.from_array(arr.copy(), default_format=fmt if fmt != "png" else None)
+        src = case.get("source", "array")
+        wc = None
+        if case.get("flipped"):
+            from astropy.wcs import WCS
+
+            wc = WCS(naxis=2)
+            wc.wcs.ctype = ["RA---TAN", "DEC--TAN"]
+            wc.wcs.crval = [30.0, 20.0]
+            wc.wcs.crpix = [(w + 1) / 2, (h + 1) / 2]
+            wc.wcs.cd = [[1e-3 if case["salt"] % 2 else -1e-3, 0.0], [0.0, 1e-3]]
+        if src.startswith("pil") and mode in ("RGB", "RGBA"):
+            # a PIL-backed image, as the image loader produces for png / jpg inputs
+            from PIL import Image as PILImage
+
+            img = Image.from_pil(PILImage.fromarray(arr.copy()), wcs=wc, default_format=fmt if fmt != "png" else None)
+            if src == "pil-cached":
+                img.asarray()
+            fills.add("pil-backed")
+        else:
+            img = Image.from_array(arr.copy(), wcs=wc, default_format=fmt if fmt != "png" else None)
+        if case.get("flipped"):
+            # the image was given a WCS and its parity was flipped before tiling (what `tile-study --fits-wcs` does):
+            # the image to be reproduced is the image as it is now, rows reversed
+            with toasty_call("tile", "flipping the image's parity before tiling"):
+                p0 = img.get_parity_sign()
+                if case["flipped"] == "ensure":
+                    img.ensure_negative_parity()
+                    did = p0 == 1
+                else:
+                    img.flip_parity()
+                    did = True
+            if did:
+                arr = arr[::-1].copy()
+                fills.add("parity-flipped-before-tiling")
         if case.get("previous") and sub is None:
             # the directory already holds the tiles of an earlier image of the same size: nothing of it may survive
             prev = make_array(mode, h, w, case["salt"] + 7, [])
@@ -329,6 +362,10 @@ def strat_io(draw, tier):
                            for _ in range(draw(st.sampled_from([0, 0, 1, 2])))]}
     if draw(st.integers(0, 4)) == 0:
         case["nested"] = [draw(st.integers(1, 600)), draw(st.integers(1, 600))]
+    if mode in ("RGB", "RGBA"):
+        case["source"] = draw(st.sampled_from(["array", "pil", "pil-cached"]))
+    if draw(st.integers(0, 3)) == 0:
+        case["flipped"] = draw(st.sampled_from(["flip", "ensure"]))
     if draw(st.integers(0, 2)) == 0:
         W = draw(st.integers(w, max(w, 1100)))
         H = draw(st.integers(h, max(h, 1100)))
